@@ -444,6 +444,7 @@ class Prop(BaseProp):
                 return None
             lam, V = res[:n], res[n:]
             V = [V[i * n:(i + 1) * n] for i in range(n)]
+            cst = 32768 * (n + 1)
             if op == 'jacobi':
                 for i in range(n - 1):
                     if lam[i].re > lam[i + 1].re:
@@ -454,7 +455,7 @@ class Prop(BaseProp):
                     for k in range(n):
                         R = R + A[i][k] * V[k][j]
                         sc = sc + A[i][k].mul_abs(V[k][j])
-                    v = self.check_zero(c, R, sc, 32768 * (n + 1), st, 'A V = V diag(lambda) (entry %d,%d)' % (i, j), amp=self._amp, floor=self._floor)
+                    v = self.check_zero(c, R, sc, cst, st, 'A V = V diag(lambda) (entry %d,%d)' % (i, j), amp=self._amp, floor=self._floor)
                     if v:
                         return v
                     R, sc = jzero(fam), jzero(fam)
@@ -463,7 +464,7 @@ class Prop(BaseProp):
                         sc = sc + V[k][i].mul_abs(V[k][j])
                     if i == j:
                         R = R - pyjet.Jet({S: (mpf(1) if not S else mpf(0)) for S in fam}, fam, mpf(0))
-                    v = self.check_zero(c, R, sc + pyjet.Jet({S: mpf(1) for S in fam}, fam, mpf(0)), 32768 * (n + 1), st, 'V^T V = I (entry %d,%d)' % (i, j), amp=self._amp, floor=self._floor)
+                    v = self.check_zero(c, R, sc + pyjet.Jet({S: mpf(1) for S in fam}, fam, mpf(0)), cst, st, 'V^T V = I (entry %d,%d)' % (i, j), amp=self._amp, floor=self._floor)
                     if v:
                         return v
             return None
@@ -477,6 +478,22 @@ class Prop(BaseProp):
             return False
         if 'tag' in m and c.get('tag') not in m['tag']:
             return False
+        if 'min_part_order' in m:
+            try:
+                blk = eval((v.detail or {}).get('block', '()'), {'__builtins__': {}})
+            except Exception:
+                return False
+            if not isinstance(blk, tuple) or len(blk) < m['min_part_order']:
+                return False
+        if 'max_excess' in m:
+            # only residuals within the stated factor of the granted tolerance belong to the class
+            try:
+                got = abs(float(str(v.obtained)))
+                tol = float(str(v.expected).split('within')[-1])
+            except Exception:
+                return False
+            if not (tol > 0 and got <= m['max_excess'] * tol):
+                return False
         if c.get('tag') == 'near-diag' and 'near_diag_min_part_order' in m:
             # negligible non-zero off-diagonal real parts: only the parts of order >= 2 belong to the finding (the first-order parts are exact)
             try:
